@@ -38,7 +38,7 @@ pub async fn chk_via_manager(out: &mut Out, real: &Real, name: u64, last: u64, s
         Arc::new(real.store.clone()),
         PREFIX.to_string(),
         ManifestManager::new(real.store.clone(), PREFIX),
-        CheckpointConfig { interval: Duration::from_secs(1), min_segments: 0, compression_enabled: false },
+        CheckpointConfig { interval: Duration::from_secs(1), min_segments: 0, compression_enabled: crate::c12::compress_flag() },
         FixedTime(name),
     );
     match mgr.create_checkpoint(state.clone(), last).await {
@@ -123,7 +123,7 @@ pub async fn extras(out: &mut Out, rng: &mut Rng, real: &mut Real, ups: &[Upd]) 
         3 => base.saturating_sub(1),
         _ => rng.below(10_000),
     };
-    let mgr = CheckpointManager::with_time_source(Arc::new(real.store.clone()), PREFIX.to_string(), ManifestManager::new(real.store.clone(), PREFIX), CheckpointConfig { interval, min_segments: min_segments as usize, compression_enabled: false }, FixedTime(now));
+    let mgr = CheckpointManager::with_time_source(Arc::new(real.store.clone()), PREFIX.to_string(), ManifestManager::new(real.store.clone(), PREFIX), CheckpointConfig { interval, min_segments: min_segments as usize, compression_enabled: crate::c12::compress_flag() }, FixedTime(now));
     out.count(&format!("x11:should_checkpoint:min_segments:{}", if min_segments == k { "=len" } else if min_segments < k { "<len" } else { ">len" }));
     match mgr.should_checkpoint().await {
         Ok(b) => out.op(format!("SHOULDCHK {} {} {}", min_segments, interval.as_millis(), now), (b as u8).to_string()),
